@@ -29,6 +29,17 @@ class Boom(Exception):
     pass
 
 
+class SealingBuilder(csr.Builder):
+    """A project subclass whose freeze() appends one more register (an ID / version register) the first time it runs."""
+    on_seal = None
+
+    def freeze(self):
+        cb, self.on_seal = self.on_seal, None
+        if cb is not None:
+            cb(self)
+        super().freeze()
+
+
 def n_cases(tier):
     return 4000 if tier == "quick" else 60000
 
@@ -89,7 +100,8 @@ def run_case(case):
                 refused = e
             mon.run(lambda: mon.ok("construction_refused", isinstance(refused, (ValueError, TypeError)),
                                    f"csr.Builder({kw}) had to be refused with ValueError/TypeError, got {refused!r}"))
-    b = csr.Builder(**omit(rng, "csr.Builder", addr_width=aw, data_width=dw, granularity=gran))
+    sealing = rng.random() < 0.2
+    b = (SealingBuilder if sealing else csr.Builder)(**omit(rng, "csr.Builder", addr_width=aw, data_width=dw, granularity=gran))
     mon.run(lambda: mon.eq("reported_parameters", (b.addr_width, b.data_width, b.granularity), (aw, dw, gran),
                            "Builder.addr_width / data_width / granularity (offsets are computed from them by callers)"))
     # a second, independent builder is filled while the first one is in use (also from inside its open scopes):
@@ -107,6 +119,23 @@ def run_case(case):
         keep.append(r)
         return r, w
     # noqa: the width returned is the element width
+
+    def seal(bld):
+        # the subclass's freeze() hook: an ID register is appended when the builder is sealed. add() accepting it makes it
+        # one of the builder's registers like any other
+        r = csr.Register({"f": csr.Field(action.R, 8)}, access="r")
+        keep.append(r)
+        name = "zz_id%d" % len(keep)
+        try:
+            bld.add(name, r)
+        except ValueError:
+            return
+        regs.append((id(r), tuple(st["scope"]) + (name,), None, 8))
+        mon.count("registers_added_by_a_freeze_hook")
+        mon.log(f"freeze() hook: add({name!r}, width=8) in scope {st['scope']}")
+
+    if sealing:
+        b.on_seal = seal
 
     def do_add_other():
         r, w = mkreg()
@@ -254,7 +283,6 @@ def run_case(case):
                 st["frozen"] = True
                 mon.log("freeze()")
         # layout
-        verdict, layout = model_layout(regs, aw, dw, gran)
         results = []
         for attempt in range(2):
             try:
@@ -262,6 +290,8 @@ def run_case(case):
             except Exception as e:
                 m, raised = None, e
             results.append((m, raised))
+            # (judged after the call: a freeze() hook that runs inside the first as_memory_map() adds to the registers)
+            verdict, layout = model_layout(regs, aw, dw, gran)
             if verdict == "reject":
                 mon.ok("layout_rejected", isinstance(raised, (ValueError, TypeError)),
                        f"as_memory_map() had to reject the layout ({layout}) but "
